@@ -32,6 +32,10 @@ impl EventSource for Sleep {
 /// block the current coroutine until timeout
 pub fn sleep(dur: Duration) {
     if unlikely(!is_coroutine()) {
+        #[cfg(may_verif)]
+        if crate::verif::sleep(dur) {
+            return;
+        }
         return thread::sleep(dur);
     }
 
